@@ -146,11 +146,11 @@ Section Api.
     destruct (run_entry q "lint_directory" fs (mk_init fs) (walk in_dir fs d l)) as [s r]. reflexivity.
   Qed.
 
-  Theorem api_eq_cli_file q fs p c : q_api_file_no_finalize q = false -> fs_get fs p = Some c ->
+  Theorem api_eq_cli_file q fs p c : fs_get fs p = Some c ->
     cli_run q fs [p] [] = [api_run q fs (TFile p)].
   Proof.
-    intros A E. unfold OrchHist.cli_run, OrchHist.api_run, OrchHist.fresh. rewrite cli_guard.
-    cbn [cli_ops map app fst snd OrchHist.run OrchHist.step]. rewrite E, (api_entry_when_off q A).
+    intros E. unfold OrchHist.cli_run, OrchHist.api_run, OrchHist.fresh. rewrite cli_guard.
+    cbn [cli_ops map app fst snd OrchHist.run OrchHist.step]. rewrite E, (gen_api_file_entry q).
     unfold OrchHist.run_single. rewrite gen_lint_files_finalizes.
     destruct (run_entry q "lint_files" fs (mk_init fs) [p]) as [s r]. reflexivity.
   Qed.
@@ -166,25 +166,27 @@ Section Api.
 
   Lemma cli_ops_batch q files dirs :
     forallb (fun o => negb (bare_single q o)) (cli_ops files dirs) = true /\ forallb lint_op (cli_ops files dirs) = true
-    /\ hist_synced ign_path false (cli_ops files dirs) = true.
+    /\ hist_synced ign_path false (cli_ops files dirs) = true
+    /\ forallb (fun o => negb (is_new_linter o)) (cli_ops files dirs) = true.
   Proof.
     unfold cli_ops. assert (HD : forall ds : list (nat * list path),
                forallb (fun o => negb (bare_single q o)) (map (fun d => LintDir (fst d) (snd d)) ds) = true
                /\ forallb lint_op (map (fun d => LintDir (fst d) (snd d)) ds) = true
-               /\ hist_synced ign_path false (map (fun d => LintDir (fst d) (snd d)) ds) = true).
-    { induction ds as [|d r (I1 & I2 & I3)]; [repeat split|]. cbn [map forallb bare_single negb andb lint_op hist_synced].
+               /\ hist_synced ign_path false (map (fun d => LintDir (fst d) (snd d)) ds) = true
+               /\ forallb (fun o => negb (is_new_linter o)) (map (fun d => LintDir (fst d) (snd d)) ds) = true).
+    { induction ds as [|d r (I1 & I2 & I3 & I4)]; [repeat split|]. cbn [map forallb bare_single negb andb lint_op hist_synced is_new_linter].
       repeat split; assumption. }
-    destruct (HD dirs) as (H1 & H2 & H3). destruct files as [|f fr]; cbn [app]; [repeat split; assumption|].
-    cbn [forallb bare_single negb andb lint_op hist_synced]. repeat split; assumption.
+    destruct (HD dirs) as (H1 & H2 & H3 & H4). destruct files as [|f fr]; cbn [app]; [repeat split; assumption|].
+    cbn [forallb bare_single negb andb lint_op hist_synced is_new_linter]. repeat split; assumption.
   Qed.
 
+  (* for every quirk vector, in particular the one claimed for the current tree *)
   Theorem cli_targets_independent q fs files dirs :
-    q_dry_keeps_storage q = false -> q_ignore_parser_reused q = false ->
     cli_run q fs files dirs = map (freshN q fs) (cli_ops files dirs).
   Proof.
-    intros D R. unfold OrchHist.cli_run. rewrite cli_guard.
-    destruct (cli_ops_batch q files dirs) as (B & L & HS).
-    rewrite (history_independent_batch V perfile rep_blocks rep_consts rep_st hard_excl ignored ign_path in_dir q fs (cli_ops files dirs) D R B HS).
+    unfold OrchHist.cli_run. rewrite cli_guard.
+    destruct (cli_ops_batch q files dirs) as (B & L & HS & NL).
+    rewrite (history_independent_faithful V perfile rep_blocks rep_consts rep_st hard_excl ignored ign_path in_dir q fs (cli_ops files dirs) B NL HS).
     now apply fresh_run_lint_only.
   Qed.
 End Api.
